@@ -203,6 +203,9 @@ fn forged_plain(body: ForgedBody, step: usize) -> Vec<u8> {
 
 /// The seq V's application would report for X when asked (None = unknown).
 fn known_seq(w: &World, x: &XSel) -> Option<u64> {
+    if let XSel::Ed(n) = x {
+        return if w.cfg.wru_know.first().copied() == Some(Know::Nothing) { None } else { Some(ed_record(*n).seq()) };
+    }
     let j = w.xnode(x)?;
     match w.cfg.wru_know.first().copied().unwrap_or(Know::Current) {
         Know::Current => Some(w.nodes[j].enr.seq()),
@@ -356,9 +359,10 @@ pub fn act(w: &mut World, op: &Op) -> bool {
             w.inject(0, attacker_addr(*z), bytes, None, Some("probe".into()));
             true
         }
-        Op::ForgedHandshake { x, z, signer, eph, rec, body } => {
+        Op::ForgedHandshake { x, z, signer, eph, rec, body, spoof } => {
             let xid = w.xid(x);
-            let za = attacker_addr(*z);
+            let spoofed = if *spoof { w.xnode(x).map(|j| w.nodes[j].addr) } else { None };
+            let za = spoofed.unwrap_or(attacker_addr(*z));
             // the last WHOAREYOU V sent to (X, Z)
             let Some(wru) = w.log.iter().rev().find(|d| {
                 d.from_node == Some(0)
@@ -394,7 +398,10 @@ pub fn act(w: &mut World, op: &Op) -> bool {
             };
             let record: Option<Enr> = match rec {
                 AttachedRecord::Own { key, seq, addr } => Some(attacker_record(w, *key, *seq, *addr, *z, x)),
-                AttachedRecord::Genuine => w.xnode(x).map(|j| w.nodes[j].enr.clone()),
+                AttachedRecord::Genuine => match x {
+                    XSel::Ed(n) => Some(ed_record(*n)),
+                    _ => w.xnode(x).map(|j| w.nodes[j].enr.clone()),
+                },
                 AttachedRecord::ThirdParty(p) => {
                     let j = 1 + (*p as usize % (n - 1).max(1));
                     if n > 1 { Some(w.nodes[j.min(n - 1)].enr.clone()) } else { None }
@@ -429,8 +436,8 @@ pub fn act(w: &mut World, op: &Op) -> bool {
             if bytes.len() > 1280 {
                 return false;
             }
-            w.attacker.derived.push((xid, *z, ikey, rkey));
-            w.inject(0, za, bytes, None, Some("forged-handshake".into()));
+            w.attacker.derived.push((xid, if spoofed.is_some() { 255 } else { *z }, ikey, rkey));
+            w.inject(0, za, bytes, None, Some(if spoofed.is_some() { "forged-handshake-spoofed".into() } else { "forged-handshake".into() }));
             true
         }
         Op::ForgedMessage { x, z, body } => {
